@@ -141,6 +141,10 @@ fn judge(c: &Case, text: &str) -> Option<(String, String)> {
     None
 }
 
+pub fn all_inputs() -> Vec<pipe::Input> {
+    cases().iter().map(input_of).collect()
+}
+
 pub fn run(tier: &str, only: Option<&Value>) -> i32 {
     let mut rep = Report::new("C16", tier);
     let all = cases();
